@@ -509,12 +509,20 @@ def evaluate_cases(chk, cases, log=print):
             failures.append(Failure('py' if out.get('__timeout__') else 'agree', None, case, out,
                                     'implementation driver raised: ' + out['__exception__']))
             continue
-        for clause, msg in chk.py_check(case, out):
-            failures.append(Failure('py', chk.classify(case, out, clause), case, out, '%s: %s' % (clause, msg)))
-        k = chk.nontrivial(case, out)
-        if k is not None:
-            nontriv.add(k)
-        t = chk.to_coq(case, out)
+        try:
+            for clause, msg in chk.py_check(case, out):
+                failures.append(Failure('py', chk.classify(case, out, clause), case, out, '%s: %s' % (clause, msg)))
+            k = chk.nontrivial(case, out)
+            if k is not None:
+                nontriv.add(k)
+            t = chk.to_coq(case, out)
+        except Exception as e:
+            # the implementation produced something the comparison code cannot even digest: model and
+            # implementation disagree (shape, type or length of a result)
+            failures.append(Failure('agree', None, case, out, 'comparison of the implementation result raised %s: %s\n%s'
+                                    % (type(e).__name__, e, traceback.format_exc()[-800:])))
+            n_err += 1
+            continue
         if t is not None:
             coq_terms.append(t)
             coq_index.append(i)
